@@ -75,7 +75,30 @@ pub fn run_case(_env: &Env, ctx: &mut Ctx, idx: u64) {
         classes: true,
         layout: if rng.chance(1, 5) { gen_sv::Layout::Plain } else { gen_sv::Layout::Random },
     };
-    let prog = gen_sv::program(&mut rng, &opts);
+    let mut prog = gen_sv::program(&mut rng, &opts);
+    // compiler directives that leave the sentence alone in front of it (white space as far as Annex A goes)
+    if rng.chance(1, 4) {
+        let mut pre = String::new();
+        for _ in 0..rng.range(1, 2) {
+            pre.push_str(*rng.pick(&[
+                "`resetall\n",
+                "`resetall ",
+                "`celldefine\n",
+                "`endcelldefine\n",
+                "`default_nettype none\n",
+                "`timescale 1ns/1ps\n",
+                "`unconnected_drive pull1\n",
+                "`nounconnected_drive\n",
+                "`line 3 \"x.sv\" 0\n",
+            ]));
+        }
+        ctx.count("programs_behind_directives", 1);
+        let n = pre.len();
+        prog.text = format!("{}{}", pre, prog.text);
+        for s in prog.spans.iter_mut() {
+            *s = (s.0 + n, s.1 + n);
+        }
+    }
     check_program(_env, ctx, &prog, k6_shape);
 }
 
